@@ -20,55 +20,329 @@ theorem mkDDDLists_kind {a : PyArg} {val : Val} (h : mkDDDLists a = .ok val) : v
     · cases h
     · injection h with h; subst h; rfl
 
-/-- a value built by a class constructor is an instance of that class -/
-theorem construct1_kind {cls : Str} {v : PyVal} {val : Val} (h : construct1 cls v = .ok val) : val.kind = cls := by
-  unfold construct1 at h
+theorem mkTextual_kind {cls : Str} {v : PyVal} {val : Val} (h : mkTextual cls v = .ok val) : val.kind = cls := by
+  unfold mkTextual at h
+  split at h
+  · injection h with h; subst h; rfl
+  · cases h
+
+theorem mkInt_kind {cls : Str} {v : PyVal} {val : Val} (h : mkInt cls v = .ok val) : val.kind = cls := by
+  unfold mkInt at h
+  split at h
+  · injection h with h; subst h; rfl
+  · cases h
+
+theorem mkBoolean_kind {cls : Str} {v : PyVal} {val : Val} (h : mkBoolean cls v = .ok val) : val.kind = cls := by
+  unfold mkBoolean at h
+  split at h
+  · injection h with h; subst h; rfl
+  · cases h
+
+theorem mkFloat_kind {cls : Str} {v : PyVal} {val : Val} (h : mkFloat cls v = .ok val) : val.kind = cls := by
+  unfold mkFloat at h
+  split at h
+  · injection h with h; subst h; rfl
+  · cases h
+
+theorem mkGeo_kind {cls : Str} {v : PyVal} {val : Val} (h : mkGeo cls v = .ok val) : val.kind = cls := by
+  unfold mkGeo at h
+  split at h
+  · injection h with h; subst h; rfl
+  · split at h <;> cases h
+  · cases h
+
+theorem mkPeriod_kind {cls : Str} {v : PyVal} {val : Val} (h : mkPeriod cls v = .ok val) : val.kind = cls := by
+  unfold mkPeriod at h
   split at h
   · split at h
     · injection h with h; subst h; rfl
     · cases h
+  all_goals cases h
+
+theorem mkUTCOffset_kind {cls : Str} {v : PyVal} {val : Val} (h : mkUTCOffset cls v = .ok val) : val.kind = cls := by
+  unfold mkUTCOffset at h
+  split at h
+  · injection h with h; subst h; rfl
+  · cases h
+
+theorem mkRecur_kind {cls : Str} {v : PyVal} {val : Val} (h : mkRecur cls v = .ok val) : val.kind = cls := by
+  unfold mkRecur at h
+  split at h
+  · injection h with h; subst h; rfl
+  · cases h
+
+theorem mkCategory1_kind {cls : Str} {v : PyVal} {val : Val} (h : mkCategory1 cls v = .ok val) : val.kind = cls := by
+  unfold mkCategory1 at h
+  split at h
+  · cases h
+  · cases h
   · split at h
-    · cases hz : pyIntOf v with
-      | error e => rw [hz] at h; cases h
-      | ok z => rw [hz] at h; injection h with h; subst h; rfl
-    · split at h
-      · cases hz : pyIntOf v with
-        | error e => rw [hz] at h; cases h
-        | ok z => rw [hz] at h; injection h with h; subst h; rfl
-      · split at h
-        · split at h
-          · injection h with h; subst h; rfl
-          · cases h
-        · split at h
-          · split at h
-            · injection h with h; subst h; rfl
-            · split at h <;> cases h
-            · cases h
-          · split at h
-            · rename_i hc; rw [mkDDD_kind h]; exact (beq_str hc).symm
-            · split at h
-              · rename_i hc; rw [mkDDDLists_kind h]; exact (beq_str hc).symm
-              · split at h
-                · split at h
-                  · split at h
-                    · injection h with h; subst h; rfl
-                    · cases h
-                  all_goals cases h
-                · split at h
-                  · split at h
-                    · injection h with h; subst h; rfl
-                    · cases h
-                  · split at h
-                    · split at h
-                      · injection h with h; subst h; rfl
-                      · cases h
-                    · split at h
-                      · split at h
-                        · cases h
-                        · cases h
-                        · split at h
-                          · injection h with h; subst h; rfl
-                          · cases h
-                      · cases h
+    · injection h with h; subst h; rfl
+    · cases h
+
+/-- a value built by a class constructor is an instance of that class -/
+theorem construct1_kind {cls : Str} {v : PyVal} {val : Val} (h : construct1 cls v = .ok val) : val.kind = cls := by
+  unfold construct1 at h
+  split at h
+  · exact mkTextual_kind h
+  split at h
+  · exact mkInt_kind h
+  split at h
+  · exact mkBoolean_kind h
+  split at h
+  · exact mkFloat_kind h
+  split at h
+  · exact mkGeo_kind h
+  split at h
+  · rename_i hc; rw [mkDDD_kind h]; exact (beq_str hc).symm
+  split at h
+  · rename_i hc; rw [mkDDDLists_kind h]; exact (beq_str hc).symm
+  split at h
+  · exact mkPeriod_kind h
+  split at h
+  · exact mkUTCOffset_kind h
+  split at h
+  · exact mkRecur_kind h
+  split at h
+  · exact mkCategory1_kind h
+  · cases h
+
+/-! ## the property mapping -/
+
+def Stored.vals : Stored → List Val
+  | .one v => [v]
+  | .many vs => vs
+
+def Stored.isMany : Stored → Bool
+  | .one _ => false
+  | .many _ => true
+
+def replaceAt (k : Str) (new : Entry) : List Entry → List Entry
+  | [] => []
+  | e :: es => (if e.name == k then new else e) :: replaceAt k new es
+
+theorem map_eq_replaceAt (k : Str) (new : Entry) (props : List Entry) :
+    props.map (fun e => if e.name == k then new else e) = replaceAt k new props := by
+  induction props with
+  | nil => rfl
+  | cons e es ih => simp only [List.map_cons, replaceAt, ih]
+
+theorem find_replaceAt_same (k : Str) (il : Bool) (vs : List Val) : ∀ (props : List Entry),
+    props.any (fun e => e.name == k) = true →
+    (replaceAt k ⟨k, il, vs⟩ props).find? (fun e => e.name == k) = some ⟨k, il, vs⟩ := by
+  intro props
+  induction props with
+  | nil => intro h; simp at h
+  | cons e es ih =>
+    intro h
+    have hkk : ((k : Str) == k) = true := by simp
+    cases he : (e.name == k) with
+    | true =>
+      simp only [replaceAt, he, if_true, List.find?_cons, hkk]
+    | false =>
+      have h' : es.any (fun e => e.name == k) = true := by simpa [List.any, he] using h
+      simp only [replaceAt, he, List.find?_cons, Bool.false_eq_true, if_false]
+      exact ih h'
+
+theorem find_replaceAt_other (k k' : Str) (il : Bool) (vs : List Val) (hkk : (k == k') = false) :
+    ∀ (props : List Entry),
+    (replaceAt k ⟨k, il, vs⟩ props).find? (fun e => e.name == k') = props.find? (fun e => e.name == k') := by
+  intro props
+  induction props with
+  | nil => rfl
+  | cons e es ih =>
+    cases he : (e.name == k) with
+    | true =>
+      have hek : e.name = k := beq_str he
+      have hk' : (e.name == k') = false := by rw [hek]; exact hkk
+      simp only [replaceAt, he, if_true, List.find?_cons, hkk, hk']
+      exact ih
+    | false =>
+      simp only [replaceAt, he, List.find?_cons, Bool.false_eq_true, if_false]
+      cases hk2 : (e.name == k') with
+      | true => rfl
+      | false => exact ih
+
+theorem setEntry_eq (props : List Entry) (k : Str) (il : Bool) (vs : List Val) :
+    setEntry props k il vs = if hasKey props k then replaceAt k ⟨k, il, vs⟩ props else props ++ [⟨k, il, vs⟩] := by
+  unfold setEntry; rw [map_eq_replaceAt]
+
+theorem find_setEntry_same (props : List Entry) (k : Str) (il : Bool) (vs : List Val) :
+    (setEntry props k il vs).find? (fun e => e.name == k) = some ⟨k, il, vs⟩ := by
+  rw [setEntry_eq]
+  by_cases h : hasKey props k = true
+  · rw [if_pos h]; exact find_replaceAt_same k il vs props h
+  · rw [if_neg h]
+    have h' : ∀ e ∈ props, (e.name == k) = false := by
+      intro e he
+      cases hb : (e.name == k) with
+      | false => rfl
+      | true => exact absurd (List.any_eq_true.mpr ⟨e, he, hb⟩) h
+    rw [List.find?_append, List.find?_eq_none.mpr (by intro e he; simp [h' e he])]
+    simp [List.find?]
+
+theorem find_setEntry_other (props : List Entry) (k k' : Str) (il : Bool) (vs : List Val) (hk : k' ≠ k) :
+    (setEntry props k il vs).find? (fun e => e.name == k') = props.find? (fun e => e.name == k') := by
+  have hkk : (k == k') = false := by
+    cases h : (k == k') with
+    | false => rfl
+    | true => exact absurd (beq_str h).symm hk
+  rw [setEntry_eq]
+  split
+  · exact find_replaceAt_other k k' il vs hkk props
+  · rw [List.find?_append]
+    simp [List.find?, hkk]
+
+theorem hasKey_eq_find (props : List Entry) (k : Str) :
+    hasKey props k = (props.find? (fun e => e.name == k)).isSome := by
+  unfold hasKey
+  induction props with
+  | nil => rfl
+  | cons e es ih =>
+    simp only [List.any, List.find?]
+    cases (e.name == k) with
+    | true => rfl
+    | false => simpa using ih
+
+theorem find_accumulate_same (props : List Entry) (k : Str) (s : Stored) :
+    (accumulate props k s).find? (fun e => e.name == k) =
+      some ⟨k, hasKey props k || s.isMany, valuesOf props k ++ s.vals⟩ := by
+  unfold accumulate valuesOf
+  rw [hasKey_eq_find]
+  cases hf : props.find? (fun e => e.name == k) with
+  | none => cases s <;> simp [find_setEntry_same, Stored.isMany, Stored.vals]
+  | some old => cases s <;> simp [find_setEntry_same, Stored.isMany, Stored.vals]
+
+theorem find_accumulate_other (props : List Entry) (k k' : Str) (s : Stored) (hk : k' ≠ k) :
+    (accumulate props k s).find? (fun e => e.name == k') = props.find? (fun e => e.name == k') := by
+  unfold accumulate
+  split <;> exact find_setEntry_other _ _ _ _ _ hk
+
+theorem valuesOf_accumulate (props : List Entry) (k : Str) (s : Stored) :
+    valuesOf (accumulate props k s) k = valuesOf props k ++ s.vals := by
+  show (match (accumulate props k s).find? (fun e => e.name == k) with | some e => e.vals | none => []) = _
+  rw [find_accumulate_same]
+
+theorem isListOf_accumulate (props : List Entry) (k : Str) (s : Stored) :
+    isListOf (accumulate props k s) k = (hasKey props k || s.isMany) := by
+  show (match (accumulate props k s).find? (fun e => e.name == k) with | some e => e.isList | none => false) = _
+  rw [find_accumulate_same]
+
+theorem hasKey_accumulate (props : List Entry) (k : Str) (s : Stored) : hasKey (accumulate props k s) k = true := by
+  rw [hasKey_eq_find, find_accumulate_same]; rfl
+
+theorem valuesOf_accumulate_other (props : List Entry) (k k' : Str) (s : Stored) (hk : k' ≠ k) :
+    valuesOf (accumulate props k s) k' = valuesOf props k' := by
+  unfold valuesOf; rw [find_accumulate_other _ _ _ _ hk]
+
+theorem isListOf_accumulate_other (props : List Entry) (k k' : Str) (s : Stored) (hk : k' ≠ k) :
+    isListOf (accumulate props k s) k' = isListOf props k' := by
+  unfold isListOf; rw [find_accumulate_other _ _ _ _ hk]
+
+/-- repeated `add` of one name -/
+def addAll (props : List Entry) (k : Str) (ss : List Stored) : List Entry :=
+  ss.foldl (fun p s => accumulate p k s) props
+
+theorem valuesOf_addAll (ss : List Stored) : ∀ (props : List Entry) (k : Str),
+    valuesOf (addAll props k ss) k = valuesOf props k ++ ss.flatMap Stored.vals := by
+  induction ss with
+  | nil => intro props k; simp [addAll]
+  | cons s ss ih =>
+    intro props k
+    show valuesOf (addAll (accumulate props k s) k ss) k = _
+    rw [ih, valuesOf_accumulate]; simp
+
+theorem valuesOf_addAll_other (ss : List Stored) : ∀ (props : List Entry) (k k' : Str), k' ≠ k →
+    valuesOf (addAll props k ss) k' = valuesOf props k' := by
+  induction ss with
+  | nil => intro props k k' _; rfl
+  | cons s ss ih =>
+    intro props k k' hk
+    show valuesOf (addAll (accumulate props k s) k ss) k' = _
+    rw [ih _ _ _ hk, valuesOf_accumulate_other _ _ _ _ hk]
+
+theorem isListOf_addAll (ss : List Stored) : ∀ (props : List Entry) (k : Str), ss ≠ [] →
+    isListOf (addAll props k ss) k = (hasKey props k || decide (2 ≤ ss.length) || ss.any Stored.isMany) := by
+  induction ss with
+  | nil => intro _ _ h; exact absurd rfl h
+  | cons s ss ih =>
+    intro props k _
+    show isListOf (addAll (accumulate props k s) k ss) k = _
+    cases ss with
+    | nil =>
+      show isListOf (accumulate props k s) k = _
+      rw [isListOf_accumulate]; simp
+    | cons s2 rest =>
+      rw [ih _ _ (by simp), hasKey_accumulate]
+      simp
+
+/-! ## parameters -/
+
+theorem get_cons_same (k : Str) (v : PVal) (rest : Params) : Params.get? ((k, v) :: rest) k = some v := by
+  simp [Params.get?, List.find?]
+
+theorem get_cons_other (k k' : Str) (v : PVal) (rest : Params) (h : (k == k') = false) :
+    Params.get? ((k, v) :: rest) k' = Params.get? rest k' := by
+  simp [Params.get?, List.find?, h]
+
+theorem uniformValue_all (x : PVal) : ∀ (l : List (Option PVal)), l ≠ [] → (∀ y ∈ l, y = some x) →
+    uniformValue l = some x := by
+  intro l hne hall
+  cases l with
+  | nil => exact absurd rfl hne
+  | cons a rest =>
+    have ha : a = some x := hall a List.mem_cons_self
+    subst ha
+    unfold uniformValue
+    have : rest.all (fun y => y == some x) = true := by
+      rw [List.all_eq_true]; intro y hy; rw [hall y (List.mem_cons_of_mem _ hy)]; simp
+    simp [this]
+
+theorem uniformValue_none_head (rest : List (Option PVal)) : uniformValue (none :: rest) = none := by
+  simp [uniformValue]
+
+theorem kVALUE_ne_kTZID : (kVALUE == kTZID) = false := by decide
+
+theorem listParams_value (vs : List Val) (x : PVal) (hne : vs ≠ [])
+    (h : ∀ v ∈ vs, Params.get? v.params kVALUE = some x) : Params.get? (listParams vs) kVALUE = some x := by
+  unfold listParams
+  rw [uniformValue_all x (vs.map (fun v => Params.get? v.params kVALUE)) (by simpa using hne)
+    (by intro y hy; obtain ⟨v, hv, rfl⟩ := List.mem_map.mp hy; exact h v hv)]
+  exact get_cons_same _ _ _
+
+theorem lastTzid_all (vs : List Val) (z : PVal) (hne : vs ≠ [])
+    (h : ∀ v ∈ vs, Params.get? v.params kTZID = some z) : lastTzid vs = some z := by
+  unfold lastTzid
+  have hr : vs.reverse ≠ [] := by simpa using hne
+  cases hrev : vs.reverse with
+  | nil => exact absurd hrev hr
+  | cons a rest =>
+    have ha : a ∈ vs := by
+      have : a ∈ vs.reverse := by rw [hrev]; exact List.mem_cons_self
+      simpa using this
+    simp [List.findSome?, h a ha]
+
+theorem listParams_tzid (vs : List Val) (z : PVal) (hne : vs ≠ []) (ht : truthy z = true)
+    (h : ∀ v ∈ vs, Params.get? v.params kTZID = some z) : Params.get? (listParams vs) kTZID = some z := by
+  unfold listParams
+  rw [lastTzid_all vs z hne h]
+  simp only [ht, if_true]
+  split
+  · rw [List.cons_append, get_cons_other _ _ _ _ kVALUE_ne_kTZID]; exact get_cons_same _ _ _
+  · exact get_cons_same _ _ _
+
+/-- a list of dates / of zoned datetimes through `vDDDTypes` element by element -/
+theorem mapRes_mkDDD_atoms (as : List PyAtom) :
+    mapRes mkDDD (as.map PyVal.atom) = .ok (as.map (fun a => ⟨cDDD, atomText a, atomParams a⟩)) := by
+  induction as with
+  | nil => rfl
+  | cons a as ih => simp only [List.map, mapRes, mkDDD, ih]
+
+theorem mapRes_mkDDD_periods (ps : List (PyAtom × PyAtom)) :
+    mapRes mkDDD (ps.map (fun p => PyVal.period p.1 p.2)) =
+      .ok (ps.map (fun p => ⟨cDDD, (periodText p.1 p.2).getD toIcalError, periodParamsDDD p.1⟩)) := by
+  induction ps with
+  | nil => rfl
+  | cons a as ih => simp only [List.map, mapRes, mkDDD, ih]
 
 end ICal.Enc
